@@ -1786,13 +1786,13 @@ def gen_conc_cases(chk):
     kinds = ["own", "mixed", "same"]
     j = 0
     for N in ((2, 3, 4, 5, 6, 7, 8) if thorough else (2, 3, 5, 8)):
-        for D in ((1, 2, 3, 5, 7) if thorough else (2, 5)):
-            for slack in ((0, 1, D, None) if thorough else (0, D)):
+        for D in ((1, 2, 4, 7) if thorough else (2, 5)):
+            for slack in ((0, D, None) if thorough else (0, D)):
                 j += 1
                 ks = kinds if thorough else [kinds[j % 3]]
                 for kind in ks:
                     specs = [{"kind": "rr", "quantum": 1}, {"kind": "rr", "quantum": 2},
-                             {"kind": "random", "seed": j, "count": 10 if thorough else 4}]
+                             {"kind": "random", "seed": j, "count": 6 if thorough else 4}]
                     if N <= (3 if thorough else 2):
                         specs.append({"kind": "single"})
                     for sp in specs:
